@@ -254,13 +254,24 @@ func DrawFaults(s *sim.Sim, kinds []sim.Outcome) {
 			}
 		}
 	}
+	// cache lag is drawn on its own (it is not a fault): when the property's menu
+	// has stale reads, a per-run probability for lagging reads to be stale
+	s.Cfg.StalePermille = 0
+	for _, k := range kinds {
+		if k == sim.Stale {
+			s.Cfg.StalePermille = []int{0, 60, 150, 300}[(mask0(s)+mode)%4]
+		}
+	}
 	var ks []string
 	for k := range s.Cfg.Kinds {
 		ks = append(ks, k.String())
 	}
 	sort.Strings(ks)
-	s.Logf("faults mode=%d permille=%d singleAt=%d kinds=%v", mode, s.Cfg.Permille, s.Cfg.SingleAt, ks)
+	s.Logf("faults mode=%d permille=%d singleAt=%d kinds=%v stale=%d", mode, s.Cfg.Permille, s.Cfg.SingleAt, ks, s.Cfg.StalePermille)
 }
+
+// mask0 draws the stale-rate index for this run.
+func mask0(s *sim.Sim) int { return s.Tape.Next(4) }
 
 // SeedNames seeds Kubernetes' name suffix generator from the tape.
 func SeedNames(s *sim.Sim) {
